@@ -12,6 +12,7 @@ documents and of their intersection, and `Sch.intersect` must print the same res
 `oneOf` cases, where `normalize` consults `is_verifiably_disjoint_from`, and on the refusals).
 -/
 import LlgVerif.Proofs.SchemaLcm
+import LlgVerif.Proofs.SchemaDisj
 namespace LlgVerif
 open Sch Js
 
@@ -30,6 +31,18 @@ theorem c06_normalize_sat (ρ : String → String → Bool) (s : Sch.Sch) (hs : 
 theorem c06_lcm_multiples (a b d : Dec) (h : Dec.checkedLcm a b = some d) (x : Num) :
     isMultDec d x = (isMultDec a x && isMultDec b x) :=
   lcmOK_checked a b d h x
+
+/-- `is_verifiably_disjoint_from` is sound, for every pair of nodes (`oneOf` and objects included) -/
+theorem c06_disjoint_sound (ρ : String → String → Bool) (a b : Sch.Sch) (h : disj a b = true) (v : Json) :
+    ¬ (sat ρ isMultDec a v = true ∧ sat ρ isMultDec b v = true) :=
+  fun hab => disjoint_sound ρ isMultDec _ a b v h hab.1 hab.2
+
+/-- the rewrite of `normalize`: a `oneOf` whose options are pairwise verifiably disjoint means the same as
+the `anyOf` of its options -/
+theorem c06_oneof_disjoint_is_anyof (ρ : String → String → Bool) (l : SchL) (h : pairwiseDisj l = true) (v : Json) :
+    sat ρ isMultDec (.oneOf l) v = sat ρ isMultDec (.anyOf l) v := by
+  simp only [sat]
+  exact pairwise_count ρ isMultDec v l h
 
 /-! non-vacuity: `{"type":"integer","minimum":0}` ∧ `{"type":"number","maximum":10}`, also under an
 `anyOf`; 3 is in, 11 and `null` are out; and 1.5 is a multiple of `lcm(0.5, 0.75)` while 1 is not -/
